@@ -11,6 +11,7 @@ for c in "$@"; do
   (cd $V && timeout 2400 bin/check $c --tier ${TIER:-quick} > /tmp/seed_eval.$$.out 2>&1); rc=$?
   echo "$(basename $S) $c rc=$rc $(grep -c '^VIOLATION' /tmp/seed_eval.$$.out) violations; $(grep -E '^\[C[0-9]+\] [A-Z]+ at step' /tmp/seed_eval.$$.out | head -1 | cut -c1-160)"
   grep -E "TOOL-ERROR" /tmp/seed_eval.$$.out | head -2
+  if [ $rc -ge 2 ]; then grep -B12 "TOOL-ERROR: unexpected" /tmp/seed_eval.$$.out | cut -c1-300 | head -16; fi
 done
 rm -f /tmp/seed_eval.$$.out
 git -C $REPO checkout -- .
